@@ -12,7 +12,7 @@ CHECKS = {
   ref="DESIGN.md section 6 C01"),
  "C02": dict(
   technique="runtime monitor: span invariants (valid, inside Source, inside parent, siblings ordered, root span shape, rune boundaries) asserted at every node of every tree the workload produces, via the public Node API",
-  text="Exploration: a total structural oracle runs beside every Parse (and streaming+Extract+Rewrite on every 4th case) of a seeded workload: exhaustive strings over a 12-symbol inline alphabet, all spec prefixes, line-structured documents with inline constructs split across container lines, atom soup, mutated spec documents, pathological templates. Held on the executions observed.",
+  text="Exploration: a total structural oracle runs beside every Parse (and streaming+Extract+Rewrite on every 4th case) of a seeded workload: exhaustive strings over a 12-symbol inline alphabet, all spec prefixes, line-structured documents with inline constructs split across container lines, atom soup, mutated spec documents, pathological templates, well-formed inline trees with delimiter tokens moved / deleted / duplicated (constructs crossing each other), definition-like paragraphs cut into lines at every place inside containers with partly consumed tabs and hostile bytes, Markdown of model documents, documents on numeric thresholds. Held on the executions observed.",
   note="Trusted: my tree walk over Node.Child/ChildCount/Span. Zero-length spans are allowed; rune boundaries judged only for valid UTF-8 input.",
   ref="DESIGN.md section 6 C02"),
  "C03": dict(
@@ -22,7 +22,7 @@ CHECKS = {
   ref="DESIGN.md section 6 C03"),
  "C05": dict(
   technique="runtime monitor: executable tree grammar and accessor-consistency rules checked at every node of trees from Parse and from streaming+Extract+Rewrite",
-  text="Exploration: the grammar rules the statement lists are judged at every node; doc-comment-only rules are recorded. Workload as C02 with streaming on every 2nd case. Held on the executions observed.",
+  text="Exploration: the grammar rules the statement lists are judged at every node (a destination, title or label anywhere but at the end of a link or image is a violation at any depth); doc-comment-only rules are recorded. Workload as C02 (incl. inline constructs crossing each other, model documents, definition-like paragraphs cut at every place) with streaming on every 2nd case. Held on the executions observed.",
   note="Trusted: my transcription of the statement's grammar; Indent admitted wherever the library's tab handling places it.",
   ref="DESIGN.md section 6 C05"),
  "C13": dict(
@@ -47,7 +47,7 @@ CHECKS = {
   ref="DESIGN.md section 6 C09"),
  "C14": dict(
   technique="metamorphic runtime monitor: H(crlf(x)), H(cr(x)) vs H(x); Parse(pad+x) vs Parse(x) on fingerprint, offsets, lines, HTML; safe-mode H(x) vs H(x+LF) modulo layout whitespace",
-  text="Exploration: three relations per input over every spec prefix (documents ending inside every construct), an exhaustive 10-symbol alphabet, line-structured documents, soup and mutated spec documents. Held on the executions observed.",
+  text="Exploration: three relations per input over every spec prefix (documents ending inside every construct), an exhaustive 10-symbol alphabet, line-structured documents, soup, mutated spec documents, model documents, definition-like paragraphs cut at every place and documents on numeric thresholds (999-character labels with line endings inside); two cases in three through Parse, the third through the streaming parser under 1-byte / random / CRLF-cutting read schedules. Held on the executions observed.",
   note="Trusted: the layout-whitespace normaliser (weak reading of 'insignificant whitespace', DESIGN C14).",
   ref="DESIGN.md section 6 C14"),
  "C16": dict(
@@ -72,13 +72,13 @@ CHECKS = {
   ref="DESIGN.md section 6 C18"),
  "C19": dict(
   engine="cmcheck-race",
-  technique="Go race detector over a stress workload (concurrent Parse of distinct inputs; concurrent Render in all configurations through shared and private renderers, AppendBlock, Format, Walk, accessors on one shared tree, yields injected in client callbacks), plus a result-equality monitor against sequential results and a tree-unchanged check; race reports counted from GORACE logs and de-duplicated by entry-point pair",
-  text="Exploration: 320 (quick) / 20 000 (thorough) rounds of 32+48 goroutines, GOMAXPROCS alternating 2/16; evidence reports operations per kind, overlapping operations and the high-water mark of simultaneous library calls; a run without overlap or without the -race build is inconclusive. Interleavings are sampled, not enumerated.",
+  technique="Go race detector over a stress workload (concurrent Parse of distinct inputs, also as adjacent sub-slices of one buffer and with NUL bytes; concurrent Render in all configurations through shared and private renderers, AppendBlock, Format, Walk - also with pruning and ended early by Post -, accessors on one shared tree, yields injected in client callbacks), plus a result-equality monitor against sequential results and a tree-unchanged check; race reports counted from GORACE logs and de-duplicated by entry-point pair",
+  text="Exploration: 1 200 (quick) / 20 000 (thorough) rounds of 32+16+48 goroutines, GOMAXPROCS alternating 2/16; evidence reports operations per kind, overlapping operations and the high-water mark of simultaneous library calls; a run without overlap or without the -race build is inconclusive. Interleavings are sampled, not enumerated.",
   note="Trusted: the Go race detector (sees only executed accesses).",
   ref="DESIGN.md section 6 C19"),
  "C15": dict(
   technique="runtime monitor over build-tag-guarded hooks: each unexported line recognizer and byte classifier is called directly and compared with a regexp / table transcription of the CommonMark 0.30 definition; each line is also parsed as a one-line document to tie the recognizer to its call site; NormalizeURI charset + idempotence and IsEmailAddress vs the spec regexp",
-  text="Exploration with exhaustive sub-spaces: all 256 byte values for every classifier; all lines up to 6-10 symbols over per-rule alphabets; all URI / e-mail strings up to 5-8 symbols; plus random longer lines and addresses with 62/63/64-character labels. Held on the calls observed, with one listed known finding (KF01).",
+  text="Exploration with exhaustive sub-spaces: all 256 byte values for every classifier; all lines up to 6-10 symbols over per-rule alphabets; all URI / e-mail strings up to 5-8 symbols; every code point of all 17 planes through NormalizeURI; plus random longer lines and addresses with 62/63/64-character labels. Held on the calls observed, with one listed known finding (KF01).",
   note="Trusted: my regexps for sections 4.1-4.5 and 5.2, Go's unicode tables for general categories (same tables as the library).",
   ref="DESIGN.md section 6 C15"),
  "C11": dict(
@@ -88,7 +88,7 @@ CHECKS = {
   ref="DESIGN.md section 6 C11"),
  "C12": dict(
   technique="runtime monitor with a reference model: directed documents with competing definitions (unique destinations/titles) and one use per link form are judged against my own label normaliser (casefold fixture from python3); on every tree of the general workload the reference map is checked for closure, normal-form keys, equality with Extract in order and with an independent tree-walk extraction",
-  text="Exploration: 300 k (quick) / 15 M (thorough) directed matching/precedence documents over labels with multi-character folds, whitespace variants, escaped brackets and non-matching neighbours; closure on spec prefixes, line-structured documents, soup and mutations. Held on the executions observed.",
+  text="Exploration: 300 k (quick) / 15 M (thorough) directed matching/precedence documents over labels with multi-character folds, whitespace variants, escaped brackets, non-matching neighbours and lengths on both sides of the 999-character limit (one-, two- and three-byte letters); closure on spec prefixes, line-structured documents, soup and mutations. Held on the executions observed.",
   note="Trusted: refimpl/label and fixtures/casefold.tsv (Unicode 14.0), restricted per rune to code points on which it agrees with golang.org/x/text (Unicode 13).",
   ref="DESIGN.md section 6 C12"),
  "C10": dict(
